@@ -532,7 +532,17 @@ def random_set(rng, nz, kinds, allow_aux=True, center=None, scale=1.0, allow_fix
     if kind == 'box':
         lo = np.round(c - rng.uniform(0.2, 1.5, nz) * scale, 2)
         hi = np.round(c + rng.uniform(0.2, 1.5, nz) * scale, 2)
-        if allow_fixed and rng.random() < 0.35:
+        r0 = rng.random()
+        if r0 < 0.3:
+            # a bound that is exactly zero (non-positive or non-negative component)
+            i = int(rng.integers(nz))
+            w0 = float(np.round(rng.uniform(0.3, 1.5) * scale, 2))
+            if r0 < 0.18:
+                lo[i], hi[i], c[i] = -w0, 0.0, -w0 / 2
+            else:
+                lo[i], hi[i], c[i] = 0.0, w0, w0 / 2
+            zc = list(c)
+        elif allow_fixed and rng.random() < 0.35:
             i = int(rng.integers(nz))          # a component fixed at a non-zero value
             if c[i] == 0:
                 c[i] = 0.5
